@@ -49,7 +49,7 @@ mod verif_probe_bbox_geometry_c08 {
         }
         eprintln!("PROBE cases={} nontrivial={}", cases, nontrivial);
         for f in failures.iter().take(12) { eprintln!("{}", f); }
-        assert!(nontrivial > 100, "PROBE generator degenerate");
         assert!(failures.is_empty(), "PROBE found {} failing inputs; first: {}", failures.len(), failures[0]);
+        assert!(nontrivial > 100, "PROBE generator degenerate");
     }
 }
